@@ -4,12 +4,12 @@ package main
 
 import (
 	"fmt"
-	"os"
-	"regexp"
 	"go/constant"
 	"go/token"
 	"go/types"
 	"math/big"
+	"os"
+	"regexp"
 	"sort"
 	"strings"
 
@@ -31,61 +31,62 @@ type Obligation struct {
 }
 
 type Exec struct {
-	ctx      *Ctx
-	prog     *ssa.Program
-	db       *SpecDB
-	fset     *token.FileSet
-	facts    []*Term
-	obls     []*Obligation
-	heapSort map[string]*Sort
-	written  map[string]bool
-	cellsW   map[*Cell]bool
-	strLits  map[string]*Term
-	typeTags map[string]int
-	tagTypes map[int]types.Type
-	fnRefs   map[string]*Term
-	fnByRef  map[string]*ssa.Function
-	root     *ssa.Function
-	discover int
-	nameCnt  map[string]int
-	cellID   int
-	allocN   int
-	allocOff int
-	allocBase *Term
-	freshRefs map[string]bool
-	freshNames map[string]bool
-	writeBases map[string][]*Term
-	stack    []*ssa.Function
-	trusted  map[string]bool // assumed contracts / modelling assumptions actually used
-	unmod    map[string]bool // unmodelled calls
-	notes    []string
-	axiomsOn map[string]bool
-	loopIter map[*ssa.Next]*iterInfo
-	safety   bool
-	inputs   map[string]*Term
-	maxDepth int
-	closures map[string]*Value
-	repoPkgs map[string]bool
-	havocN   int
-	globals  map[string]func(*State) *Value
-	useContracts bool
-	specAxioms []*Term
-	mkstrSeen map[string]bool
-	zarrSeen map[string]bool
-	heapReads []heapRead
-	rootFrame *Frame
-	inLaw map[string]bool
-	lawState *State
+	ctx           *Ctx
+	prog          *ssa.Program
+	db            *SpecDB
+	fset          *token.FileSet
+	facts         []*Term
+	obls          []*Obligation
+	heapSort      map[string]*Sort
+	written       map[string]bool
+	cellsW        map[*Cell]bool
+	strLits       map[string]*Term
+	typeTags      map[string]int
+	tagTypes      map[int]types.Type
+	fnRefs        map[string]*Term
+	fnByRef       map[string]*ssa.Function
+	root          *ssa.Function
+	discover      int
+	nameCnt       map[string]int
+	cellID        int
+	allocN        int
+	allocOff      int
+	allocBase     *Term
+	freshRefs     map[string]bool
+	freshNames    map[string]bool
+	writeBases    map[string][]*Term
+	stack         []*ssa.Function
+	trusted       map[string]bool // assumed contracts / modelling assumptions actually used
+	unmod         map[string]bool // unmodelled calls
+	notes         []string
+	axiomsOn      map[string]bool
+	loopIter      map[*ssa.Next]*iterInfo
+	safety        bool
+	inputs        map[string]*Term
+	maxDepth      int
+	closures      map[string]*Value
+	repoPkgs      map[string]bool
+	havocN        int
+	globals       map[string]func(*State) *Value
+	useContracts  bool
+	specAxioms    []*Term
+	globalRefs    map[string]*Term
+	mkstrSeen     map[string]bool
+	zarrSeen      map[string]bool
+	heapReads     []heapRead
+	rootFrame     *Frame
+	inLaw         map[string]bool
+	lawState      *State
 	accessorState *State // state in which defined accessors are evaluated
-	allFuncs map[string]*ssa.Function
-	namedFuns map[string]*namedFun
-	namedReads map[string][]string
-	perm []*Term // facts that hold unconditionally and must survive roll-backs (literal definitions, ...)
-	calledCells map[string]*Cell
-	retCells map[string]*Cell
-	entryFacts []*Term
-	rootArgs []*Value
-	lateFacts []*Term
+	allFuncs      map[string]*ssa.Function
+	namedFuns     map[string]*namedFun
+	namedReads    map[string][]string
+	perm          []*Term // facts that hold unconditionally and must survive roll-backs (literal definitions, ...)
+	calledCells   map[string]*Cell
+	retCells      map[string]*Cell
+	entryFacts    []*Term
+	rootArgs      []*Value
+	lateFacts     []*Term
 }
 
 type iterInfo struct {
@@ -209,6 +210,7 @@ func (x *Exec) strLit(s string) *Term {
 	}
 	name := fmt.Sprintf("str!%d_%s", len(x.strLits), sanitize(trunc(s, 16)))
 	t := x.ctx.Const(name, StrSort)
+	t.Distinct = 1
 	x.strLits[s] = t
 	x.perm = append(x.perm, Eq(x.slen(t), IntLit(int64(len(s)))))
 	if len(s) <= 80 {
@@ -495,7 +497,7 @@ func (x *Exec) val(fr *Frame, v ssa.Value) *Value {
 	case *ssa.Function:
 		return &Value{K: KFunc, T: v.Type(), Fn: v, Term: x.fnRef(v)}
 	case *ssa.Global:
-		return &Value{K: KPtr, T: v.Type(), P: &Pointer{Base: x.ctx.Const("global$"+sanitize(v.String()), RefSort), ObjT: v.Type().(*types.Pointer).Elem(), Global: v.String()}}
+		return &Value{K: KPtr, T: v.Type(), P: &Pointer{Base: x.globalRef(v.String()), ObjT: v.Type().(*types.Pointer).Elem(), Global: v.String()}}
 	case *ssa.Builtin:
 		return &Value{K: KFunc, T: v.Type()}
 	case *ssa.FreeVar:
@@ -1188,4 +1190,22 @@ func (x *Exec) attribute(fr *Frame, kind, label string) []string {
 		return c.FrameProps
 	}
 	return c.Props
+}
+
+// globalRef is the address of a package-level variable: distinct variables have distinct,
+// non-null addresses that existed before the function was entered.
+func (x *Exec) globalRef(name string) *Term {
+	if x.globalRefs == nil {
+		x.globalRefs = map[string]*Term{}
+	}
+	if t, ok := x.globalRefs[name]; ok {
+		return t
+	}
+	t := x.ctx.Const("global$"+sanitize(name), RefSort)
+	t.Distinct = 2
+	x.globalRefs[name] = t
+	x.perm = append(x.perm, Neq(t, x.null()),
+		Eq(x.ctx.App("globalId", IntSort, t), IntLit(int64(len(x.globalRefs)))),
+		Le(x.ctx.App("allocId", IntSort, t), IntLit(0)))
+	return t
 }
